@@ -12,7 +12,7 @@ from prosemirror.transform import Transform, structure
 
 ID = "C12"
 CORR_MODULE = "Corr.C12"
-LEVEL = "exploration"
+LEVEL = "proof"
 SHARD = 80
 
 
